@@ -5,6 +5,7 @@ pub mod filter;
 mod geom;
 mod text;
 
+use std::collections::HashSet;
 use std::sync::Arc;
 
 pub use strict_num::{self, ApproxEqUlps, NonZeroPositiveF32, NormalizedF32, PositiveF32};
@@ -1639,28 +1640,25 @@ impl Tree {
     }
 
     pub(crate) fn collect_paint_servers(&mut self) {
+        // Paint servers that were seen already, by address: a list lookup per paint
+        // takes quadratic time when every element has a paint server of its own.
+        let mut seen_lg = HashSet::new();
+        let mut seen_rg = HashSet::new();
+        let mut seen_patt = HashSet::new();
         loop_over_paint_servers(&self.root, &mut |paint| match paint {
             Paint::Color(_) => {}
             Paint::LinearGradient(lg) => {
-                if !self
-                    .linear_gradients
-                    .iter()
-                    .any(|other| Arc::ptr_eq(lg, other))
-                {
+                if seen_lg.insert(Arc::as_ptr(lg)) {
                     self.linear_gradients.push(lg.clone());
                 }
             }
             Paint::RadialGradient(rg) => {
-                if !self
-                    .radial_gradients
-                    .iter()
-                    .any(|other| Arc::ptr_eq(rg, other))
-                {
+                if seen_rg.insert(Arc::as_ptr(rg)) {
                     self.radial_gradients.push(rg.clone());
                 }
             }
             Paint::Pattern(patt) => {
-                if !self.patterns.iter().any(|other| Arc::ptr_eq(patt, other)) {
+                if seen_patt.insert(Arc::as_ptr(patt)) {
                     self.patterns.push(patt.clone());
                 }
             }
@@ -1734,60 +1732,72 @@ fn loop_over_paint_servers(parent: &Group, f: &mut dyn FnMut(&Paint)) {
 }
 
 impl Group {
-    pub(crate) fn collect_clip_paths(&self, clip_paths: &mut Vec<Arc<ClipPath>>) {
+    pub(crate) fn collect_clip_paths(
+        &self,
+        clip_paths: &mut Vec<Arc<ClipPath>>,
+        seen: &mut HashSet<*const ClipPath>,
+    ) {
         for node in self.children() {
             if let Node::Group(ref g) = node {
                 let mut clip = g.clip_path.as_ref();
                 while let Some(c) = clip {
-                    if !clip_paths.iter().any(|other| Arc::ptr_eq(c, other)) {
+                    if seen.insert(Arc::as_ptr(c)) {
                         clip_paths.push(c.clone());
                     }
                     clip = c.clip_path.as_ref();
                 }
             }
 
-            node.subroots(|subroot| subroot.collect_clip_paths(clip_paths));
+            node.subroots(|subroot| subroot.collect_clip_paths(clip_paths, seen));
 
             if let Node::Group(ref g) = node {
-                g.collect_clip_paths(clip_paths);
+                g.collect_clip_paths(clip_paths, seen);
             }
         }
     }
 
-    pub(crate) fn collect_masks(&self, masks: &mut Vec<Arc<Mask>>) {
+    pub(crate) fn collect_masks(
+        &self,
+        masks: &mut Vec<Arc<Mask>>,
+        seen: &mut HashSet<*const Mask>,
+    ) {
         for node in self.children() {
             if let Node::Group(ref g) = node {
                 let mut mask = g.mask.as_ref();
                 while let Some(m) = mask {
-                    if !masks.iter().any(|other| Arc::ptr_eq(m, other)) {
+                    if seen.insert(Arc::as_ptr(m)) {
                         masks.push(m.clone());
                     }
                     mask = m.mask.as_ref();
                 }
             }
 
-            node.subroots(|subroot| subroot.collect_masks(masks));
+            node.subroots(|subroot| subroot.collect_masks(masks, seen));
 
             if let Node::Group(ref g) = node {
-                g.collect_masks(masks);
+                g.collect_masks(masks, seen);
             }
         }
     }
 
-    pub(crate) fn collect_filters(&self, filters: &mut Vec<Arc<filter::Filter>>) {
+    pub(crate) fn collect_filters(
+        &self,
+        filters: &mut Vec<Arc<filter::Filter>>,
+        seen: &mut HashSet<*const filter::Filter>,
+    ) {
         for node in self.children() {
             if let Node::Group(ref g) = node {
                 for filter in g.filters() {
-                    if !filters.iter().any(|other| Arc::ptr_eq(filter, other)) {
+                    if seen.insert(Arc::as_ptr(filter)) {
                         filters.push(filter.clone());
                     }
                 }
             }
 
-            node.subroots(|subroot| subroot.collect_filters(filters));
+            node.subroots(|subroot| subroot.collect_filters(filters, seen));
 
             if let Node::Group(ref g) = node {
-                g.collect_filters(filters);
+                g.collect_filters(filters, seen);
             }
         }
     }
